@@ -21,12 +21,14 @@ import (
 //	(b) a *Token obtained from Peek / Shift is only valid until the next Peek (which may move or
 //	    reallocate the buffer): it is never stored into heap memory.
 func (c *Ctx) tokenBuffer(rule, rel string) {
-	c.R.Rule(rule, "package "+rel+", TokenBuffer (one of three sibling copies of the look-ahead buffer): (a) in Peek every path from the entry to an assignment that resets the read position (`z.pos, z.buf = 0, buf` / `z.pos = 0`) passes a copy(…, z.buf[z.pos:]) that moves the unread tokens to the front — on a path without it tokens that were never consumed are overwritten by newly read ones and consumed tokens are replayed (a processing instruction or start tag disappears from the output); (b) SSA: no value returned by (*TokenBuffer).Peek or Shift is stored into memory other than a local variable — the next Peek may reallocate the buffer, and a pointer kept in a slice or field then refers to the abandoned array (edits made through it never reach the output); (c) a field slice that is reused by reslicing (`z.attrBuffer = z.attrBuffer[:n]`) still holds what the previous call put there: every path from the reslice to a return passes a range loop over that slice whose body unconditionally stores into the element of the range key (the reset to nil) — otherwise an attribute that is absent on this tag is reported with the token of an earlier tag, and the caller edits or deletes an unrelated attribute")
+	c.R.Rule(rule, "package "+rel+", TokenBuffer (one of three sibling copies of the look-ahead buffer): (a) in Peek every path from the entry to an assignment that resets the read position (`z.pos, z.buf = 0, buf` / `z.pos = 0`) passes a copy(…, z.buf[z.pos:]) that moves the unread tokens to the front — on a path without it tokens that were never consumed are overwritten by newly read ones and consumed tokens are replayed (a processing instruction or start tag disappears from the output); (b) SSA: no value returned by (*TokenBuffer).Peek or Shift is stored into memory other than a local variable — the next Peek may reallocate the buffer, and a pointer kept in a slice or field then refers to the abandoned array (edits made through it never reach the output); (c) a field slice that is reused by reslicing (`z.attrBuffer = z.attrBuffer[:n]`) still holds what the previous call put there: every path from the reslice to a return passes a range loop over that slice whose body unconditionally stores into the element of the range key (the reset to nil) — otherwise an attribute that is absent on this tag is reported with the token of an earlier tag, and the caller edits or deletes an unrelated attribute; (d) a token bound to the result of Peek is looked at, not rewritten: no statement of the package assigns the Data of such a token — its bytes are the input until its own case of the token switch handles it (`<pre>\\n\\ncode`: one line break removed in advance, the next one by the parser); (e) where Peek cuts the new buffer at an error token (`buf = buf[:i+1]`), the index of the element it returns is set to that token (`pos = i`) on every path to the return and not moved afterwards — a look-ahead beyond the end of the input otherwise indexes past the buffer")
 	pk := c.pkg(rule, rel)
 	if pk == nil {
 		return
 	}
 	c.staleScratch(rule, pk)
+	c.peekedTokensReadOnly(rule, pk)
+	c.peekIndexClamped(rule, pk)
 	fd := c.fn(rule, pk, "TokenBuffer.Peek")
 	if fd != nil {
 		g := c.graph(pk, fd)
@@ -499,4 +501,135 @@ func (c *Ctx) staleScratch(rule string, pk *packages.Package) {
 	if pk.Name != "xml" {
 		c.R.Floor(rule, "reused result slices", n, 1)
 	}
+}
+
+// peekedTokensReadOnly: clause (d) of the token buffer rule.
+func (c *Ctx) peekedTokensReadOnly(rule string, pk *packages.Package) {
+	info := pk.TypesInfo
+	n, peeks := 0, 0
+	for _, fd := range load.FuncDecls(pk) {
+		if fd.Body == nil {
+			continue
+		}
+		// variables bound to the result of (*TokenBuffer).Peek
+		peeked := map[types.Object]bool{}
+		ast.Inspect(fd.Body, func(x ast.Node) bool {
+			as, ok := x.(*ast.AssignStmt)
+			if !ok || len(as.Lhs) != 1 || len(as.Rhs) != 1 {
+				return true
+			}
+			call, ok := ast.Unparen(as.Rhs[0]).(*ast.CallExpr)
+			if !ok || !strings.HasSuffix(calleeName(info, call), ".(TokenBuffer).Peek") {
+				return true
+			}
+			if id, ok := as.Lhs[0].(*ast.Ident); ok {
+				if o := info.ObjectOf(id); o != nil {
+					peeked[o] = true
+					peeks++
+				}
+			}
+			return true
+		})
+		if len(peeked) == 0 {
+			continue
+		}
+		ast.Inspect(fd.Body, func(x ast.Node) bool {
+			as, ok := x.(*ast.AssignStmt)
+			if !ok {
+				return true
+			}
+			for _, l := range as.Lhs {
+				sel, ok := l.(*ast.SelectorExpr)
+				if !ok || sel.Sel.Name != "Data" {
+					continue
+				}
+				id, ok := ast.Unparen(sel.X).(*ast.Ident)
+				if !ok || !peeked[info.Uses[id]] {
+					continue
+				}
+				n++
+				c.R.Bad(rule, fmt.Sprintf("%s.%s/%s rewritten ahead of its turn#%d", pk.Name, load.FuncName(fd), nospace(str(l)), n), c.pos(as), "the bytes of a token that was only peeked at are changed: when its own case comes, the token is no longer what the input said (a line break after <pre> removed in advance is removed again by the parser)")
+			}
+			return true
+		})
+	}
+	c.R.Exists(rule, pk.Name+"/peeked tokens are read-only", "-", fmt.Sprintf("%d look-ahead bindings, none has its Data assigned", peeks))
+	if pk.Name != "xml" {
+		c.R.Floor(rule, "look-ahead bindings (variables bound to TokenBuffer.Peek)", peeks, 3)
+	}
+}
+
+// peekIndexClamped: clause (e) of the token buffer rule.
+func (c *Ctx) peekIndexClamped(rule string, pk *packages.Package) {
+	fd := load.Func(pk, "TokenBuffer.Peek")
+	if fd == nil {
+		return
+	}
+	g := c.graph(pk, fd)
+	n := 0
+	for _, y := range g.Nodes {
+		as, ok := y.Stmt.(*ast.AssignStmt)
+		if !ok || y.Kind != flow.KStmt || len(as.Lhs) != 1 || len(as.Rhs) != 1 {
+			continue
+		}
+		// buf = buf[:i+1] — the buffer is cut at the error token just read
+		se, ok := ast.Unparen(as.Rhs[0]).(*ast.SliceExpr)
+		if !ok || se.Low != nil || se.High == nil || nospace(str(se.X)) != nospace(str(as.Lhs[0])) {
+			continue
+		}
+		hb, ok := ast.Unparen(se.High).(*ast.BinaryExpr)
+		if !ok || hb.Op != token.ADD || nospace(str(hb.Y)) != "1" {
+			continue
+		}
+		idx := nospace(str(hb.X))
+		n++
+		// the parameter that is finally used as the index of the returned element
+		var ret *flow.Node
+		var posName string
+		for _, q := range g.Nodes {
+			if rs := retStmt(q); rs != nil && len(rs.Results) == 1 {
+				if ue, ok := ast.Unparen(rs.Results[0]).(*ast.UnaryExpr); ok && ue.Op == token.AND {
+					if ix, ok := ast.Unparen(ue.X).(*ast.IndexExpr); ok {
+						if id, ok := ast.Unparen(ix.Index).(*ast.Ident); ok {
+							ret, posName = q, id.Name
+						}
+					}
+				}
+			}
+		}
+		if ret == nil {
+			c.R.Unres(rule, pk.Name+".TokenBuffer.Peek/returned element", c.pos(fd), "no `return &buf[index]` with a plain index variable found")
+			continue
+		}
+		clamps := func(q *flow.Node) bool {
+			a2, ok := q.Stmt.(*ast.AssignStmt)
+			return ok && q.Kind == flow.KStmt && a2.Tok == token.ASSIGN && len(a2.Lhs) == 1 && len(a2.Rhs) == 1 && nospace(str(a2.Lhs[0])) == posName && nospace(str(a2.Rhs[0])) == idx
+		}
+		p := g.Path(flow.Search{From: []*flow.Node{y}, Goal: func(q *flow.Node) bool { return q == ret }, Avoid: clamps})
+		// and nothing moves the index after the clamp
+		moved := false
+		for _, q := range g.Nodes {
+			if !clamps(q) {
+				continue
+			}
+			if g.Path(flow.Search{From: []*flow.Node{q}, Goal: func(z *flow.Node) bool {
+				a3, ok := z.Stmt.(*ast.AssignStmt)
+				if ok && z.Kind == flow.KStmt && z != q {
+					for _, l := range a3.Lhs {
+						if nospace(str(l)) == posName {
+							return true
+						}
+					}
+				}
+				if inc, ok := z.Stmt.(*ast.IncDecStmt); ok && nospace(str(inc.X)) == posName {
+					return true
+				}
+				return false
+			}, Avoid: func(z *flow.Node) bool { return z == ret }}) != nil {
+				moved = true
+			}
+		}
+		c.R.Check(p == nil && !moved, rule, fmt.Sprintf("%s.TokenBuffer.Peek/index clamped when the input ends early#%d", pk.Name, n), c.pos(as), posName+" = "+idx+" before the element is returned", "the buffer is cut at the error token but the requested index is not moved onto it: a look-ahead of two tokens at the end of the input (`<svg><defs`) indexes past the buffer and the minifier panics")
+	}
+	c.R.Floor(rule, "early ends of the read loop in Peek", n, 1)
 }
